@@ -292,6 +292,10 @@ func gridOne(c *mon.Case, o gridObj, pg *progress) string {
 				row = append(row, 'V')
 				badval++
 				rejV = append(rejV, ov.Label)
+				// the documented range is accepted whole, boundaries included (TTL: 1..255 on every pattern that has it)
+				if i, ok := ov.V.(int); ok && n == mangos.OptionTTL && i >= 1 && i <= 255 {
+					c.Violate("opt-in-range-rejected:"+cell, "%s: SetOption(%q, %s) returned ErrBadValue for a value inside the documented range 1..255", o.Desc, n, ov.Label)
+				}
 				continue
 			case isBadOpt(o.Kind, err):
 				row = append(row, 'O')
